@@ -64,6 +64,8 @@ def build_chain(cs, tier):
                             h.apply(lk)
         ops0 = list(h.ops)
         h.sess.close()
+    if cs % 5 == 4:
+        ops0 = [{'op': 'clock_tick', 'seconds': 1}] + list(ops0)      # a running clock through all generations
     return cfg, ops0, rng.choice([1, 1, 2, 3, 4])
 
 
